@@ -230,6 +230,67 @@ theorem jointPost_perm (data data' : List (Nat × Vec)) (p : Nat) (q q' : Post)
     intro i j
     rw [c1 i j, c2 i j, hA, hk, hk, quad_reindex]
 
+/-- a training output `(sample position, task)` or a test output `task at p`, as (point, task) -/
+def ptJ (data : List (Nat × Vec)) (p : Nat) : (Fin data.length × Fin m) ⊕ Fin m → Nat × Nat :=
+  Sum.elim (fun u => ((data.get u.1).1, u.2.1)) (fun j => (p, j.1))
+
+/-- prior Gram of all training outputs and the `m` test outputs -/
+def jointGramJ (data : List (Nat × Vec)) (p : Nat) :
+    Matrix ((Fin data.length × Fin m) ⊕ Fin m) ((Fin data.length × Fin m) ⊕ Fin m) ℚ :=
+  fun a b => (kfun (ptJ m data p a).1 (ptJ m data p a).2 (ptJ m data p b).1 (ptJ m data p b).2).getD 0
+
+/-- the noise part `I_N ⊗ Σ` of the joint system -/
+def NJ (data : List (Nat × Vec)) :
+    Matrix (Fin data.length × Fin m) (Fin data.length × Fin m) ℚ :=
+  fun u v => if u.1 = v.1 then (lookup Sg u.2 v.2).getD 0 else 0
+
+/-- **Joint executable posterior: every predicted variance is non-negative** (prior Gram positive
+semidefinite on the outputs involved, noise part positive definite). -/
+theorem jointPost_var_nonneg (data : List (Nat × Vec)) (p : Nat) (q : Post)
+    (h : jointPost m kfun Sg data p = some q) (hG : (jointGramJ m kfun data p).PosSemidef)
+    (hN : (NJ m Sg data).PosDef) : ∀ i : Fin m, 0 ≤ (q.cov.getD i []).getD i 0 := by
+  obtain ⟨Kd, hKd⟩ : ∃ Kd : Matrix (Fin data.length × Fin m) (Fin data.length × Fin m) ℚ,
+      Kd = fun (u v : Fin data.length × Fin m) =>
+        (kfun (data.get u.1).1 u.2 (data.get v.1).1 v.2).getD 0 := ⟨_, rfl⟩
+  obtain ⟨Bc, hBc⟩ : ∃ Bc : Matrix (Fin data.length × Fin m) (Fin m) ℚ,
+      Bc = fun (u : Fin data.length × Fin m) (j : Fin m) =>
+        (kfun (data.get u.1).1 u.2 p j).getD 0 := ⟨_, rfl⟩
+  obtain ⟨Dm, hDm⟩ : ∃ Dm : Matrix (Fin m) (Fin m) ℚ,
+      Dm = fun (i j : Fin m) => (kfun p i p j).getD 0 := ⟨_, rfl⟩
+  have hsym : ∀ (u : Fin data.length × Fin m) (j : Fin m),
+      (kfun p j (data.get u.1).1 u.2).getD 0 = (kfun (data.get u.1).1 u.2 p j).getD 0 := by
+    intro u j
+    have := congrFun (congrFun hG.1 (Sum.inl u)) (Sum.inr j)
+    simpa [jointGramJ, ptJ, Matrix.conjTranspose_apply] using this
+  have hJ : jointGramJ m kfun data p = fromBlocks Kd Bc Bcᴴ Dm := by
+    ext a b
+    rcases a with u | i <;> rcases b with v | j
+    · rw [fromBlocks_apply₁₁, hKd]; rfl
+    · rw [fromBlocks_apply₁₂, hBc]; rfl
+    · rw [fromBlocks_apply₂₁, Matrix.conjTranspose_apply, hBc, star_trivial]
+      exact hsym v i
+    · rw [fromBlocks_apply₂₂, hDm]; rfl
+  have hA : AJ m kfun Sg data = Kd + NJ m Sg data := by
+    funext u v
+    rw [hKd]; rfl
+  have hK : Kd.PosSemidef := by
+    have h0 := hG.submatrix (Sum.inl : Fin data.length × Fin m → _ ⊕ Fin m)
+    have e0 : (jointGramJ m kfun data p).submatrix Sum.inl Sum.inl = Kd := by
+      ext u v; rw [hKd]; rfl
+    rwa [e0] at h0
+  have hpd : (AJ m kfun Sg data).PosDef := by rw [hA]; exact hN.posSemidef_add hK
+  obtain ⟨-, hc⟩ := jointPost_spec m kfun Sg data p q h
+    ((Matrix.isUnit_iff_isUnit_det _).mp hpd.isUnit)
+  intro i
+  rw [hc i i]
+  have hpsd := posterior_cov_posSemidef Kd Bc Dm _ (hJ ▸ hG) hN
+  have h00 := hpsd.diag_nonneg (i := i)
+  rw [Matrix.sub_apply, conjTranspose_eq_transpose_of_trivial, transpose_mul_mul_apply, ← hA] at h00
+  have hk : (fun a => Bc a i) = kJ m kfun data p i := by
+    funext u; rw [hBc]; exact (hsym u i).symm
+  rw [hk, hDm] at h00
+  exact h00
+
 end Joint
 
 /-- **Correlated model (executable): predictions depend only on the multiset of samples.** -/
